@@ -138,6 +138,17 @@ func detectHTMLMagic(data []byte) bool {
 	}
 	data = data[start:]
 
+	// A UTF-8 byte order mark and comments may precede the doctype / root element
+	if start == 0 && strings.HasPrefix(string(data), "\xEF\xBB\xBF") {
+		return detectHTMLMagic(data[3:])
+	}
+	if strings.HasPrefix(string(data), "<!--") {
+		if end := strings.Index(string(data), "-->"); end >= 0 {
+			return detectHTMLMagic(data[end+3:])
+		}
+		return false
+	}
+
 	// Check for common HTML signatures (case-insensitive for DOCTYPE)
 	upper := strings.ToUpper(string(data))
 	if strings.HasPrefix(upper, "<!DOCTYPE HTML") {
